@@ -342,13 +342,13 @@ class CallMixin:
                 s2.assume(cond)
                 s2.tags.append(f"{con.qual.split('.')[-1]}!{exc}")
                 if not getattr(con, 'assume_exc_safe', con.exc_safe):
-                    self.havoc_modifies(con, c0, s2)
+                    self.havoc_unless(con, c0, s2)
                 out.append((Exc(exc, con.qual), s2))
         for exc in con.may_raise:
             s2 = st.copy()
             s2.tags.append(f"{con.qual.split('.')[-1]}!{exc}?")
             if not getattr(con, 'assume_exc_safe', con.exc_safe):
-                self.havoc_modifies(con, c0, s2)
+                self.havoc_unless(con, c0, s2)
             out.append((Exc(exc, con.qual), s2))
         # normal outcome
         s3 = st.copy()
@@ -364,6 +364,19 @@ class CallMixin:
         self.assume_clauses(s3, con.ensures(c1))
         out.append((res, s3))
         return out
+
+    def havoc_unless(self, con, c0, st):
+        """exceptional outcome of a callee that is not (assumed) exception safe: the modifies set is havocked, except that
+        under con.exc_safe_if the heap is unchanged (If-merge of the two heaps)."""
+        if con.exc_safe_if is None:
+            return self.havoc_modifies(con, c0, st)
+        cond = con.exc_safe_if(c0)
+        before = dict(st.heap.arrays)
+        self.havoc_modifies(con, c0, st)
+        for k, newarr in list(st.heap.arrays.items()):
+            old = before.get(k)
+            if old is not None and not newarr.eq(old):
+                st.heap.set(k, z3.If(cond, old, newarr))
 
     def fresh_result(self, con, st):
         ty = con.result
@@ -529,7 +542,18 @@ class CallMixin:
                                   z3.ForAll([j], z3.Implies(z3.And(0 <= j, j < i), z3.Select(sv.arr, j) != xt), patterns=[z3.Select(sv.arr, j)]))
                         out.append((Sym(i, "int"), s2))
                 return out
-        from .expr import ImgSet
+        from .expr import ImgSet, ImgSetQ
+        if isinstance(v, ImgSetQ) and name == "pop":
+            out = []
+            qa = z3.Const("qa!pop", Qid)
+            for side, s2 in self.branch(z3.Exists([qa], z3.Select(v.dom, qa)), st, "pop"):
+                if not side:
+                    out.append((Exc("KeyError"), s2))
+                else:
+                    w = fresh("popq", Qid)
+                    s2.assume(z3.Select(v.dom, w))
+                    out.append((Sym(v.val(w), v.ety), s2))
+            return out
         if isinstance(v, ImgSet) and name == "pop":
             sq = v.seq
             out = []
